@@ -345,7 +345,7 @@ Proof.
     + exists sh. reflexivity.
     + pose proof (missing_arr_len col) as Hm. destruct (missing_arr col); cbn; tauto.
   - reflexivity.
-  - intros name Hname. unfold encodable. cbn [fst snd]. unfold create_props_metadata, encode_prop, upcast_prop, upcast_arr, a.
+  - intros name Hname. unfold encodable. cbn [fst snd]. unfold create_props_metadata, vlen_dtypes_uniform, cpm_core, encode_prop, upcast_prop, upcast_arr, a.
     cbn [p_vals p_missing a_dt dtype_eqb]. cbn [p_vals a_dt].
     assert (Hv : valid_prop_dtype DF64 = true) by (vm_compute; reflexivity). rewrite Hv.
     destruct (String.eqb name "") eqn:E; [apply String.eqb_eq in E; contradiction|]. cbn. eexists. eexists. split; reflexivity.
